@@ -7,6 +7,7 @@ import GqlProofs.Format.FmtTokens
 import GqlProofs.Format.FmtInvariant
 import GqlProofs.Format.NormPreserve
 import GqlProofs.Props.C05
+import GqlProofs.EndToEnd.ParsedTop
 /-
   Property C12 — format ∘ parse round trip for executable documents.
 
@@ -40,6 +41,12 @@ import GqlProofs.Props.C05
       `C12_format_fixpoint  : … ∧ fmtQuery cfg d' = fmtQuery cfg d`
       `C12_format_roundtrip_parsed`: the same for every `d` the parser returned (the side
       conditions of C05 hold for parser output; `Formattable d` — decidable — stays a hypothesis).
+      END TO END (bottom of this file): `C12_parsed_formattable` — `Formattable d` IS an invariant of
+      parser output (one traversal of the parser model, `GqlProofs/EndToEnd/ParsedShape.lean`, on top
+      of the lexer facts `GqlProofs/EndToEnd/TokLex.lean`) — hence `C12_format_roundtrip_source`:
+      for EVERY source text `inp` (any bytes; no UTF-8 hypothesis is needed since string values are
+      written byte for byte) that parses, format ∘ parse is the identity up to positions and
+      block-string kind, and formatting is a fixpoint.
 
   Hypothesis `Formattable d` (GqlProofs/Format/Formattable.lean): names are lexer Names, Int / Float
   raw texts are one number lexeme of that kind, required selection sets are not empty.  String values
@@ -329,3 +336,27 @@ theorem C12_string_value_illformed_roundtrip :
   · simp [readToken, ws, readTokenBody, isNameStart, isDigit, readStringLoop.eq_def, decodeRune, runeError]
   · have := C12_quote_is_string_token_bytes [9, 255] [] Cur.init (Or.inl (by simp))
     simpa [quoteString] using this
+
+
+/- ======================= END TO END: over source texts ======================= -/
+
+/-- `Formattable` is an invariant of parser output: in every document the parser model returns (with
+    or without token limit) names are lexer Names, Int / Float raw texts are number lexemes of their
+    kind, and required selection sets are not empty. -/
+theorem C12_parsed_formattable (L : Nat) (inp : Bytes) (d : QueryDoc) (hp : parseQuery L inp = .ok d) :
+    Formattable d :=
+  Gql.EndToEnd.parsed_formattable L inp d hp
+
+/-- **C12 END TO END**: for every source text that the parser accepts (any limit), the formatted text
+    of the parsed document parses again, to the same document up to positions (and block-string
+    values as string values), and formatting the result gives the same text — for every
+    configuration whose indentation consists of ignored bytes.  No hypothesis on the document and
+    none on the encoding of the source is left. -/
+theorem C12_format_roundtrip_source {cfg : Cfg} (hind : BlankIndent cfg) (L : Nat) (inp : Bytes) (d : QueryDoc)
+    (hp : parseQuery L inp = .ok d) :
+    ∃ d', parseQuery 0 (fmtQuery cfg d) = .ok d' ∧ d'.erasePos = (normFmt d).erasePos ∧
+      fmtQuery cfg d' = fmtQuery cfg d :=
+  C12_format_roundtrip_parsed hind inp d (ofRun_mono (stricter_zero L) _ _ d hp) (C12_parsed_formattable L inp d hp)
+
+#print axioms C12_parsed_formattable
+#print axioms C12_format_roundtrip_source
